@@ -38,6 +38,9 @@ def mutants(prog):
         ("fd spacing of the first item", Im, "spatial_derivatives", "fd_spacing = spacing[:, sdim]", "fd_spacing = spacing[0, sdim]", "T5.batch-spacing"),
         ("bspline kernel cache ignores the stride", Im, "spatial_derivatives", "key = (s, d)", "key = d", "T5.bspline"),
         ("FlowFields.curl: rank instead of spatial dimension", "deepali.data.flow", "FlowFields.curl", "if self.sdim not in (2, 3):", "if self.ndim not in (2, 3):", "T5.flowfields-curl"),
+        ("spatial_derivatives: always computes in float32", Im, "spatial_derivatives", "if not data.is_floating_point():\n        data = data.float()", "data = data.float()", "T5.dtype"),
+        ("gaussian derivatives: spacing of the first axis", Im, "spatial_derivatives", "denom = spacing.narrow(1, sdim, 1)", "denom = spacing.narrow(1, 0, 1)", "T5.gaussian-spacing"),
+        ("1-D spacing read per image when N = D", Im, "spatial_derivatives", "if spacing.ndim == 1:\n            spacing = spacing.unsqueeze(0)", "if spacing.ndim == 1:\n            spacing = spacing.unsqueeze(1 if N > 1 and spacing.shape[0] == N else 0)", "T5.batch-spacing"),
     ]
     for name, mod, fn, old, new, expect in specs:
         ov = source_sub(prog, mod, fn, old, new)
